@@ -325,6 +325,39 @@ fn c14c_write_chunk_mhdr_mamp() {
     assert!(le32(&out.buf, 80) == mamp.amplifier);
 }
 
+/// variable-length payloads: declared size == element count x record size of the format
+#[kani::proof]
+#[kani::stub(std::fmt::format, vio::fmt_stub)]
+#[kani::stub(std::any::TypeId::eq, typeid_ne)]
+#[kani::unwind(8)]
+fn c14c_write_chunk_vec_payloads() {
+    let dp = DoodadPlacement { name_id: kani::any(), unique_id: kani::any(), position: [kani::any(), kani::any(), kani::any()],
+        rotation: [kani::any(), kani::any(), kani::any()], scale: kani::any(), flags: kani::any() };
+    let mut placements = Vec::new();
+    placements.push(dp);
+    placements.push(dp);
+    let mddf = create_mddf_chunk(&placements);
+    let mut flags = Vec::new();
+    flags.push(kani::any::<u32>());
+    flags.push(kani::any::<u32>());
+    flags.push(kani::any::<u32>());
+    let mtxf = MtxfChunk { flags };
+    let mut layers = Vec::new();
+    layers.push(MclyLayer { texture_id: kani::any(), flags: crate::chunks::mcnk::MclyFlags { value: kani::any() }, offset_in_mcal: kani::any(), effect_id: kani::any() });
+    let mcly = MclyChunk { layers };
+    let mut out = FSink::<160>::new();
+    ok!(write_chunk(&mut out, ChunkId::MDDF, &mddf), "write_chunk fails");
+    ok!(write_chunk(&mut out, ChunkId::MTXF, &mtxf), "write_chunk fails");
+    ok!(write_chunk(&mut out, ChunkId::MCLY, &mcly), "write_chunk fails");
+    kani::cover!(out.len == 80 + 20 + 24);
+    assert!(le32(&out.buf, 4) == 2 * 36, "MDDF declared size != 36 bytes per placement");
+    assert!(is_magic(&out.buf, 80, ChunkId::MTXF) && le32(&out.buf, 84) == 3 * 4, "MTXF declared size != 4 bytes per texture / chunk not behind MDDF");
+    assert!(is_magic(&out.buf, 100, ChunkId::MCLY) && le32(&out.buf, 104) == 16, "MCLY declared size != 16 bytes per layer / chunk not behind MTXF");
+    assert!(out.len == 124 && out.pos == out.len && walk(&out.buf, out.len, 3) == Some(3), "chunk framing does not tile the output");
+    assert!(le32(&out.buf, 8 + 36) == dp.name_id && le32(&out.buf, 8 + 36 + 4) == dp.unique_id, "second MDDF record does not start 36 bytes behind the first");
+    std::mem::forget((placements, mddf, mtxf, mcly));
+}
+
 // ================================================================== C14.d records: write(read(b)) == b
 macro_rules! bytes_roundtrip {
     ($name:ident, $ty:ty, $n:expr, $cap:expr) => {
@@ -363,12 +396,13 @@ bytes_roundtrip!(c14d_rec_chunk_header, ChunkHeader, 8, 8);
 
 // ================================================================== file image for everything larger than one record
 /// In-memory file (Read + Write + Seek, extent `len` independent of the cursor, like a file).  The bytes live in
-/// nested arrays of 64 so that CBMC keeps every byte as its own symbol (arrays longer than 64 are opaque to its
-/// constant propagation; structural fields - magics, sizes, offsets - then stop folding and every parser error
-/// path becomes reachable for the solver).  Capacity S * 4096 bytes.
+/// P pages of 64 so that CBMC keeps every byte as its own symbol (arrays longer than 64 are opaque to its constant
+/// propagation; structural fields - magics, sizes, offsets - then stop folding and every parser error path becomes
+/// reachable for the solver).  Capacity P * 64 bytes, P <= 64; symbolic execution time grows with P, so every harness
+/// uses the smallest P that holds its file.
 macro_rules! put16 {
     ($s:expr, $p:expr, $b:expr, $i:expr, $n:expr, $($k:expr),*) => {
-        $( if $i + $k < $n { let q = $p + $k; $s.buf[q >> 12][(q >> 6) & 63][q & 63] = $b[$i + $k]; } )*
+        $( if $i + $k < $n { let q = $p + $k; $s.buf[q >> 6][q & 63] = $b[$i + $k]; } )*
     };
 }
 macro_rules! get16 {
@@ -376,16 +410,16 @@ macro_rules! get16 {
         $( if $i + $k < $n { $o[$i + $k] = $s.at($p + $k); } )*
     };
 }
-pub struct Img<const S: usize> {
-    pub buf: [[[u8; 64]; 64]; S],
+pub struct Img<const P: usize> {
+    pub buf: [[u8; 64]; P],
     pub pos: usize,
     pub len: usize,
 }
-impl<const S: usize> Img<S> {
-    pub const CAP: usize = S * 4096;
-    pub fn new() -> Self { Img { buf: [[[0u8; 64]; 64]; S], pos: 0, len: 0 } }
+impl<const P: usize> Img<P> {
+    pub const CAP: usize = P * 64;
+    pub fn new() -> Self { Img { buf: [[0u8; 64]; P], pos: 0, len: 0 } }
     #[inline(always)]
-    pub fn at(&self, p: usize) -> u8 { self.buf[p >> 12][(p >> 6) & 63][p & 63] }
+    pub fn at(&self, p: usize) -> u8 { self.buf[p >> 6][p & 63] }
     pub fn le32(&self, p: usize) -> u32 { u32::from_le_bytes([self.at(p), self.at(p + 1), self.at(p + 2), self.at(p + 3)]) }
     pub fn is_magic(&self, p: usize, id: ChunkId) -> bool {
         self.at(p) == id.0[0] && self.at(p + 1) == id.0[1] && self.at(p + 2) == id.0[2] && self.at(p + 3) == id.0[3]
@@ -404,14 +438,13 @@ impl<const S: usize> Img<S> {
         Some(n)
     }
 }
-impl<const S: usize> Write for Img<S> {
+impl<const P: usize> Write for Img<P> {
     fn write(&mut self, b: &[u8]) -> io::Result<usize> {
         let n = b.len();
         if self.pos > Self::CAP || n > Self::CAP - self.pos {
             return Err(io::Error::from(io::ErrorKind::WriteZero));
         }
-        // 16 bytes per loop iteration (keeps the unwind bound, and with it the depth to which CBMC unrolls the
-        // recursive drop glue of binrw::Error on explored error paths, small)
+        // 16 bytes per loop iteration (keeps the unwind bound small)
         let mut i = 0;
         while i < n {
             let p = self.pos + i;
@@ -425,7 +458,7 @@ impl<const S: usize> Write for Img<S> {
     fn write_all(&mut self, b: &[u8]) -> io::Result<()> { self.write(b).map(|_| ()) }
     fn flush(&mut self) -> io::Result<()> { Ok(()) }
 }
-impl<const S: usize> Read for Img<S> {
+impl<const P: usize> Read for Img<P> {
     fn read(&mut self, out: &mut [u8]) -> io::Result<usize> {
         let avail = if self.pos < self.len { self.len - self.pos } else { 0 };
         let n = if out.len() < avail { out.len() } else { avail };
@@ -455,7 +488,7 @@ impl<const S: usize> Read for Img<S> {
         Ok(())
     }
 }
-impl<const S: usize> Seek for Img<S> {
+impl<const P: usize> Seek for Img<P> {
     fn seek(&mut self, s: SeekFrom) -> io::Result<u64> {
         let np: i128 = match s {
             SeekFrom::Start(o) => o as i128,
@@ -511,8 +544,8 @@ fn header_content_eq(a: &McnkHeader, b: &McnkHeader) -> bool {
 
 const AT: usize = 16; // the MCNK under test starts at file offset 16 (relative vs absolute offsets differ)
 
-fn write_at(c: &McnkChunk) -> Img<1> {
-    let mut out = Img::<1>::new();
+fn write_at<const P: usize>(c: &McnkChunk) -> Img<P> {
+    let mut out = Img::<P>::new();
     ok!(out.write_all(&[0xEEu8; AT]), "filler write fails");
     ok!(write_mcnk_chunk(&mut out, c), "write_mcnk_chunk fails on a well-formed chunk");
     assert!(out.pos == out.len, "cursor not at the end of the MCNK after write_mcnk_chunk");
@@ -521,20 +554,20 @@ fn write_at(c: &McnkChunk) -> Img<1> {
     out
 }
 
-fn parse_at(img: &mut Img<1>) -> binrw::BinResult<McnkChunk> {
+fn parse_at<const P: usize>(img: &mut Img<P>) -> binrw::BinResult<McnkChunk> {
     img.pos = AT + 8;
     let size = img.le32(AT + 4);
     McnkChunk::parse_with_offset_and_size(img, AT as u64, size)
 }
 
 /// sub-chunks tile the MCNK payload behind the 136-byte header
-fn subchunks_tile(out: &Img<1>, to: usize, k: usize) {
+fn subchunks_tile<const P: usize>(out: &Img<P>, to: usize, k: usize) {
     assert!(out.walk(AT + 144, to, k) == Some(k), "MCNK sub-chunk framing does not tile the MCNK payload");
 }
 
 /// parse -> write again reproduces the bytes (no growth, no drift)
-fn rewrite_is_stable(out: &Img<1>, d: &McnkChunk) {
-    let out2 = write_at(d);
+fn rewrite_is_stable<const P: usize>(out: &Img<P>, d: &McnkChunk) {
+    let out2 = write_at::<P>(d);
     assert!(out2.len == out.len, "MCNK re-serialised after parsing has a different size");
     let i: usize = kani::any();
     kani::assume(i < out.len);
@@ -549,7 +582,7 @@ fn rewrite_is_stable(out: &Img<1>, d: &McnkChunk) {
 #[kani::unwind(12)]
 fn c14e_mcnk_bare_header() {
     let c = empty_mcnk(header_any());
-    let mut out = write_at(&c);
+    let mut out = write_at::<3>(&c);
     kani::cover!(out.len == AT + 144);
     assert!(out.len == AT + 8 + 136, "MCNK without sub-chunks is not 8 + 136 bytes");
     let d = ok!(parse_at(&mut out), "MCNK written by the serializer is rejected by the parser");
@@ -595,7 +628,7 @@ fn c14e_mcnk_layers_emitters() {
     let mut emitters = Vec::new();
     emitters.push(emitter_any());
     c.sound_emitters = Some(McseChunk { emitters });
-    let mut out = write_at(&c);
+    let mut out = write_at::<4>(&c);
     kani::cover!(out.len == AT + 144 + 40 + 36);
     assert!(out.len == AT + 144 + (8 + 2 * 16) + (8 + 28), "MCLY entry is not 16 bytes / MCSE entry is not 28 bytes");
     subchunks_tile(&out, AT + 144 + 40 + 36, 2);
@@ -634,7 +667,7 @@ fn c14e_mcnk_refs() {
     references.push(kani::any());
     references.push(kani::any());
     c.refs = Some(McrfChunk { references });
-    let mut out = write_at(&c);
+    let mut out = write_at::<3>(&c);
     kani::cover!(out.len == AT + 144 + 16);
     subchunks_tile(&out, AT + 144 + 16, 1);
     let d = ok!(parse_at(&mut out), "MCNK written by the serializer is rejected by the parser");
@@ -668,9 +701,9 @@ fn concrete_refs_mcnk(n_doodad_refs: u32) -> McnkChunk {
 #[kani::unwind(12)]
 fn c14e_mcnk_refs_rewrite_grows_witness() {
     let c = concrete_refs_mcnk(2);
-    let mut out = write_at(&c);
+    let mut out = write_at::<4>(&c);
     let d = ok!(parse_at(&mut out), "parse fails");
-    let mut out2 = Img::<1>::new();
+    let mut out2 = Img::<4>::new();
     ok!(out2.write_all(&[0xEEu8; AT]), "filler write fails");
     ok!(write_mcnk_chunk(&mut out2, &d), "rewrite fails");
     assert!(out2.len == out.len, "MCNK with MCRF grows when it is parsed and serialised again");
@@ -685,7 +718,7 @@ fn c14e_mcnk_refs_rewrite_grows_witness() {
 #[kani::unwind(12)]
 fn c14e_mcnk_refs_zero_counts_witness() {
     let c = concrete_refs_mcnk(0);
-    let mut out = write_at(&c);
+    let mut out = write_at::<3>(&c);
     let d = ok!(parse_at(&mut out), "parse fails");
     assert!(d.refs.is_some(), "MCRF written by the serializer is not returned by the parser (header ref counts left at 0)");
     std::mem::forget((c, d));
@@ -700,7 +733,7 @@ fn c14e_mcnk_refs_zero_counts_witness() {
 fn c14e_mcnk_mcdd_dropped_witness() {
     let mut c = empty_mcnk(header_zero());
     c.doodad_disable = Some(crate::chunks::mcnk::McddChunk { disable: [0xFF; 64] });
-    let mut out = write_at(&c);
+    let mut out = write_at::<4>(&c);
     assert!(out.len == AT + 8 + 136 + 8 + 64);
     let d = ok!(parse_at(&mut out), "parse fails");
     assert!(d.doodad_disable.is_some(), "MCDD sub-chunk written by the serializer is lost by the parser");
@@ -754,7 +787,7 @@ fn c14e_mcnk_heights_normals() {
     c.header.flags.value &= !0x200;
     c.heights = Some(heights_any());
     c.normals = Some(normals_any());
-    let mut out = write_at(&c);
+    let mut out = write_at::<19>(&c);
     kani::cover!(out.len == AT + 144 + 588 + 456);
     assert!(out.len == AT + 144 + (8 + 145 * 4) + (8 + 145 * 3 + 13), "MCVT/MCNR sizes are not 145 floats / 145 x 3 bytes + 13 padding");
     subchunks_tile(&out, AT + 144 + 588 + 456, 2);
@@ -787,7 +820,7 @@ fn c14e_mcnk_vertex_colors() {
     // ignores the offset unless the flag is set (c14e_mcnk_vertex_colors_flag_witness)
     c.header.flags.value |= 0x40;
     c.vertex_colors = Some(colors_any());
-    let mut out = write_at(&c);
+    let mut out = write_at::<12>(&c);
     kani::cover!(out.len == AT + 144 + 8 + 580);
     subchunks_tile(&out, AT + 144 + 588, 1);
     let d = ok!(parse_at(&mut out), "MCNK written by the serializer is rejected by the parser");
@@ -811,7 +844,7 @@ fn c14e_mcnk_vertex_colors() {
 fn c14e_mcnk_vertex_colors_flag_witness() {
     let mut c = empty_mcnk(header_zero());
     c.vertex_colors = Some(MccvChunk::default());
-    let mut out = write_at(&c);
+    let mut out = write_at::<12>(&c);
     let d = ok!(parse_at(&mut out), "parse fails");
     assert!(d.vertex_colors.is_some(), "MCCV vertex colours written by the serializer are lost by the parser (MCNK flag 0x40 not set by the writer)");
     std::mem::forget((c, d));
@@ -842,7 +875,7 @@ fn c14e_mcnk_liquid() {
     let mut c = empty_mcnk(header_any());
     c.header.flags.value &= !0x38; // liquid_type Water (flags 0x08/0x10/0x20 select ocean/magma/slime)
     c.liquid = Some(liquid_any());
-    let mut out = write_at(&c);
+    let mut out = write_at::<15>(&c);
     kani::cover!(out.len == AT + 144 + 8 + 720);
     assert!(out.len == AT + 144 + 8 + (8 + 81 * 8 + 64), "MCLQ payload is not 2 floats + 81 x 8 bytes + 64 flags");
     subchunks_tile(&out, AT + 144 + 728, 1);
@@ -883,7 +916,7 @@ fn c14e_mcnk_liquid_last_witness() {
         i += 1;
     }
     c.liquid = Some(MclqChunk { min_height: 0.0, max_height: 1.0, vertices, tile_flags: [0; 64], liquid_type: LiquidType::Water });
-    let mut out = write_at(&c);
+    let mut out = write_at::<14>(&c);
     let r = parse_at(&mut out);
     let good = r.is_ok();
     std::mem::forget(r);
@@ -891,359 +924,29 @@ fn c14e_mcnk_liquid_last_witness() {
     std::mem::forget(c);
 }
 
-// ================================================================== C14.f MH2O: write_mh2o_chunk -> parse_mh2o_chunk
-fn instance_any() -> Mh2oInstance {
-    Mh2oInstance { liquid_type: kani::any(), liquid_object_or_lvf: kani::any(), min_height_level: kani::any(), max_height_level: kani::any(),
-        x_offset: kani::any(), y_offset: kani::any(), width: kani::any(), height: kani::any(),
-        offset_exists_bitmap: kani::any(), offset_vertex_data: kani::any() }
-}
-fn instance_content_eq(a: &Mh2oInstance, b: &Mh2oInstance) -> bool {
-    a.liquid_type == b.liquid_type && a.liquid_object_or_lvf == b.liquid_object_or_lvf
-        && a.min_height_level.to_bits() == b.min_height_level.to_bits() && a.max_height_level.to_bits() == b.max_height_level.to_bits()
-        && a.x_offset == b.x_offset && a.y_offset == b.y_offset && a.width == b.width && a.height == b.height
-}
-
-/// water on one terrain chunk (entry `which`), one layer without vertex data, optional attributes
-fn mh2o_one_layer(which: usize, with_attrs: bool) {
-    let mut entries = Vec::with_capacity(which + 1);
-    let mut k = 0;
-    while k < which {
-        entries.push(Mh2oEntry::default());
-        k += 1;
-    }
-    let inst = instance_any();
-    let attrs = Mh2oAttributes { fishable: kani::any(), deep: kani::any() };
-    let mut instances = Vec::new();
-    instances.push(inst);
-    let mut vertex_data = Vec::new();
-    vertex_data.push(None);
-    let mut exists_bitmaps = Vec::new();
-    exists_bitmaps.push(None);
-    // stale header values: the writer has to recompute all three
-    let header = Mh2oHeader { offset_instances: kani::any(), layer_count: kani::any(), offset_attributes: kani::any() };
-    entries.push(Mh2oEntry { header, instances, vertex_data, exists_bitmaps, attributes: if with_attrs { Some(attrs) } else { None } });
-    let mh2o = Mh2oChunk { entries };
-    let mut out = Img::<1>::new();
-    ok!(out.write_all(&[0xEEu8; AT]), "filler write fails");
-    ok!(write_mh2o_chunk(&mut out, &mh2o), "write_mh2o_chunk fails");
-    let payload = 256 * 12 + 24 + if with_attrs { 16 } else { 0 };
-    kani::cover!(out.len == AT + 8 + payload);
-    assert!(out.is_magic(AT, ChunkId::MH2O), "MH2O magic missing");
-    assert!(out.le32(AT + 4) as usize == payload, "declared MH2O size != 256 headers + instances + attributes");
-    assert!(out.len == AT + 8 + payload && out.pos == out.len, "MH2O bytes written != 8 + declared size / cursor not at the end");
-    let hdr = AT + 8 + 12 * which;
-    assert!(out.le32(hdr) == 3072 && out.le32(hdr + 4) == 1, "MH2O header of the wet chunk: instances not directly behind the 256 headers / layer count != 1");
-    assert!(out.le32(hdr + 8) == if with_attrs { 3072 + 24 } else { 0 }, "MH2O header: attribute offset wrong");
-    let size = out.le32(AT + 4);
-    let r = crate::root_parser::verif_kani_root_parser::parse_mh2o(&mut out, AT as u64, size);
-    let d = ok!(r, "MH2O written by the serializer is rejected by the parser");
-    assert!(d.is_some(), "MH2O with one liquid layer parsed as 'no water'");
-    let d = d.unwrap();
-    assert!(d.entries.len() == 256, "parsed MH2O does not have 256 entries");
-    let j: usize = kani::any();
-    kani::assume(j < 256);
-    if j == which {
-        let e = &d.entries[j];
-        assert!(e.instances.len() == 1 && instance_content_eq(&e.instances[0], &inst), "MH2O instance changed in write->parse");
-        assert!(e.instances[0].offset_exists_bitmap == 0 && e.instances[0].offset_vertex_data == 0, "stale instance offsets survive although nothing is written for them");
-        assert!(e.vertex_data.len() == 1 && e.vertex_data[0].is_none() && e.exists_bitmaps.len() == 1 && e.exists_bitmaps[0].is_none(), "parser invents vertex data / bitmap");
-        match &e.attributes {
-            Some(a) => assert!(with_attrs && a.fishable == attrs.fishable && a.deep == attrs.deep, "MH2O attributes changed in write->parse"),
-            None => assert!(!with_attrs, "MH2O attributes lost in write->parse"),
-        }
-    } else {
-        let e = &d.entries[j];
-        assert!(e.instances.len() == 0 && e.attributes.is_none() && e.header.layer_count == 0, "water appears on a chunk that has none");
-    }
-    std::mem::forget((mh2o, d));
-}
+// ================================================================== C14.g MTXF reader vs chunk size
+// (whole-file harnesses through AdtBuilder -> serialize_to_writer -> discover_chunks -> parse_root_adt, the MH2O
+// write->parse harnesses and everything that needs the chunk-discovery HashMap did not finish and are not kept here; see NOTES.md)
+/// witness KF-C14-mtxf-unbounded without chunk discovery (no HashMap): MTXF directly in front of an MCNK, as
+/// serialize_to_writer lays them out; then exactly what parse_root_adt does with an MTXF location
+/// (`reader.seek(offset + 8); MtxfChunk::read_le(reader)`)
 #[kani::proof]
 #[kani::stub(std::fmt::format, vio::fmt_stub)]
 #[kani::stub(std::any::TypeId::eq, typeid_ne)]
-#[kani::stub(binrw::helpers::until_eof, until_eof_model)]
-#[kani::unwind(260)]
-fn c14f_mh2o_layer_attrs_chunk0() { mh2o_one_layer(0, true) }
-#[kani::proof]
-#[kani::stub(std::fmt::format, vio::fmt_stub)]
-#[kani::stub(std::any::TypeId::eq, typeid_ne)]
-#[kani::stub(binrw::helpers::until_eof, until_eof_model)]
-#[kani::unwind(260)]
-fn c14f_mh2o_layer_noattrs_chunk2() { mh2o_one_layer(2, false) }
-
-// ================================================================== C14.g whole file: builder -> serialize_to_writer -> discover -> parse_root_adt
-fn rs_stub() -> std::hash::RandomState {
-    // fixed SipHash keys: HashMap (chunk discovery) with concrete keys becomes executable
-    unsafe { std::mem::transmute::<[u64; 2], std::hash::RandomState>([1, 2]) }
-}
-
-fn doodad_any() -> DoodadPlacement {
-    let scale: u16 = kani::any();
-    kani::assume(scale != 0); // AdtBuilder::add_doodad_placement rejects scale 0
-    DoodadPlacement { name_id: 0, unique_id: kani::any(), position: [kani::any(), kani::any(), kani::any()],
-        rotation: [kani::any(), kani::any(), kani::any()], scale, flags: kani::any() }
-}
-fn wmo_any() -> WmoPlacement {
-    WmoPlacement { name_id: 0, unique_id: kani::any(), position: [kani::any(), kani::any(), kani::any()],
-        rotation: [kani::any(), kani::any(), kani::any()], extents_min: [kani::any(), kani::any(), kani::any()],
-        extents_max: [kani::any(), kani::any(), kani::any()], flags: kani::any(), doodad_set: kani::any(), name_set: kani::any(), scale: kani::any() }
-}
-fn f3eq(a: &[f32; 3], b: &[f32; 3]) -> bool {
-    a[0].to_bits() == b[0].to_bits() && a[1].to_bits() == b[1].to_bits() && a[2].to_bits() == b[2].to_bits()
-}
-
-/// tile assembled through the real builder: 1 texture, 1 model, 1 WMO, one placement of each, one terrain chunk
-fn build_tile(version: AdtVersion, dp: DoodadPlacement, wp: WmoPlacement, mcnk: McnkChunk, bounds: Option<MfboChunk>) -> BuiltAdt {
-    let b = crate::builder::AdtBuilder::new().with_version(version).add_texture("a.blp").add_model("m.m2").add_wmo("w.wmo")
-        .add_doodad_placement(dp).add_wmo_placement(wp).add_mcnk_chunk(mcnk);
-    let b = match bounds { Some(m) => b.add_flight_bounds(m), None => b };
-    ok!(b.build(), "AdtBuilder::build rejects a well-formed tile")
-}
-
-// layout of that tile, from the chunk order documented for serialize_to_writer and the payload sizes of the format
-const P_MHDR: usize = 12;
-const P_MHDR_DATA: usize = 20;
-const P_MCIN: usize = 84;
-const P_MTEX: usize = 84 + 8 + 4096; // 4188
-const P_MMDX: usize = P_MTEX + 8 + 6;
-const P_MMID: usize = P_MMDX + 8 + 5;
-const P_MWMO: usize = P_MMID + 8 + 4;
-const P_MWID: usize = P_MWMO + 8 + 6;
-const P_MDDF: usize = P_MWID + 8 + 4;
-const P_MODF: usize = P_MDDF + 8 + 36;
-const P_AFTER_MODF: usize = P_MODF + 8 + 64; // 4369
-
-/// "every offset-table entry points at a chunk of the named type": MHDR field k -> magic, MCIN entry -> MCNK
-fn offset_tables_point_at_chunks(out: &Img<2>, mfbo_at: Option<usize>, mtxf_at: Option<usize>, mcnk_at: usize) {
-    let f = |k: usize| out.le32(P_MHDR_DATA + 4 * k) as usize;
-    assert!(out.is_magic(P_MHDR, ChunkId::MHDR) && out.le32(P_MHDR + 4) == 64, "MHDR is not the second chunk / not 64 bytes");
-    assert!(P_MHDR_DATA + f(1) == P_MCIN && out.is_magic(P_MCIN, ChunkId::MCIN), "MHDR.mcin_offset does not point at MCIN");
-    assert!(out.is_magic(P_MHDR_DATA + f(2), ChunkId::MTEX), "MHDR.mtex_offset does not point at MTEX");
-    assert!(out.is_magic(P_MHDR_DATA + f(3), ChunkId::MMDX), "MHDR.mmdx_offset does not point at MMDX");
-    assert!(out.is_magic(P_MHDR_DATA + f(4), ChunkId::MMID), "MHDR.mmid_offset does not point at MMID");
-    assert!(out.is_magic(P_MHDR_DATA + f(5), ChunkId::MWMO), "MHDR.mwmo_offset does not point at MWMO");
-    assert!(out.is_magic(P_MHDR_DATA + f(6), ChunkId::MWID), "MHDR.mwid_offset does not point at MWID");
-    assert!(out.is_magic(P_MHDR_DATA + f(7), ChunkId::MDDF), "MHDR.mddf_offset does not point at MDDF");
-    assert!(out.is_magic(P_MHDR_DATA + f(8), ChunkId::MODF), "MHDR.modf_offset does not point at MODF");
-    match mfbo_at {
-        Some(p) => assert!(P_MHDR_DATA + f(9) == p && out.is_magic(p, ChunkId::MFBO) && f(0) & 1 == 1, "MHDR.mfbo_offset / flag 0x1 do not describe the MFBO chunk"),
-        None => assert!(f(9) == 0 && f(0) & 1 == 0, "MHDR announces an MFBO chunk that is not in the file"),
-    }
-    assert!(f(10) == 0 && f(0) & 2 == 0, "MHDR announces an MH2O chunk that is not in the file");
-    match mtxf_at {
-        Some(p) => assert!(P_MHDR_DATA + f(11) == p && out.is_magic(p, ChunkId::MTXF), "MHDR.mtxf_offset does not point at MTXF"),
-        None => assert!(f(11) == 0, "MHDR announces an MTXF chunk that is not in the file"),
-    }
-    // MCIN: entry 0 -> the MCNK, the other 255 entries empty
-    assert!(out.le32(P_MCIN + 4) == 4096, "MCIN is not 256 x 16 bytes");
-    assert!(out.le32(P_MCIN + 8) as usize == mcnk_at && out.is_magic(mcnk_at, ChunkId::MCNK), "MCIN entry 0 does not point at the MCNK chunk");
-    assert!(out.le32(P_MCIN + 12) == out.le32(mcnk_at + 4), "MCIN entry 0 size != declared size of the MCNK chunk");
-    let j: usize = kani::any();
-    kani::assume(j >= 1 && j < 256);
-    assert!(out.le32(P_MCIN + 8 + 16 * j) == 0 && out.le32(P_MCIN + 8 + 16 * j + 4) == 0, "MCIN entry of an absent terrain chunk is not empty");
-}
-
-/// what the parser returns equals what went into the builder
-fn same_content(root: &crate::api::RootAdt, dp: &DoodadPlacement, wp: &WmoPlacement, mcnk: &McnkChunk) {
-    assert!(root.textures.len() == 1 && root.textures[0].as_bytes() == b"a.blp", "texture names changed in build->serialise->parse");
-    assert!(root.models.len() == 1 && root.models[0].as_bytes() == b"m.m2", "model names changed in build->serialise->parse");
-    assert!(root.wmos.len() == 1 && root.wmos[0].as_bytes() == b"w.wmo", "WMO names changed in build->serialise->parse");
-    assert!(root.model_indices.len() == 1 && root.model_indices[0] == 0 && root.wmo_indices.len() == 1 && root.wmo_indices[0] == 0, "MMID/MWID offsets changed");
-    assert!(root.doodad_placements.len() == 1 && root.wmo_placements.len() == 1, "placement count changed in build->serialise->parse");
-    let d = &root.doodad_placements[0];
-    assert!(d.name_id == dp.name_id && d.unique_id == dp.unique_id && f3eq(&d.position, &dp.position) && f3eq(&d.rotation, &dp.rotation)
-        && d.scale == dp.scale && d.flags == dp.flags, "doodad placement changed in build->serialise->parse");
-    let w = &root.wmo_placements[0];
-    assert!(w.name_id == wp.name_id && w.unique_id == wp.unique_id && f3eq(&w.position, &wp.position) && f3eq(&w.rotation, &wp.rotation)
-        && f3eq(&w.extents_min, &wp.extents_min) && f3eq(&w.extents_max, &wp.extents_max) && w.flags == wp.flags
-        && w.doodad_set == wp.doodad_set && w.name_set == wp.name_set && w.scale == wp.scale, "WMO placement changed in build->serialise->parse");
-    assert!(root.mcnk_chunks.len() == 1, "terrain chunk count changed in build->serialise->parse");
-    assert!(header_content_eq(&root.mcnk_chunks[0].header, &mcnk.header), "terrain chunk header content changed in build->serialise->parse");
-    assert!(root.mcin.entries.len() == 256, "parsed MCIN does not have 256 entries");
-    assert!(root.water_data.is_none() && root.texture_amplifier.is_none() && root.texture_params.is_none(), "parser invents a version-specific chunk");
-}
-
-fn file_roundtrip(version: AdtVersion, with_bounds: bool) {
-    let dp = doodad_any();
-    let wp = wmo_any();
-    let mut mcnk = empty_mcnk(header_zero());
-    mcnk.header.flags.value = kani::any();
-    mcnk.header.index_x = kani::any();
-    mcnk.header.index_y = kani::any();
-    mcnk.header.area_id = kani::any();
-    mcnk.header.holes_low_res = kani::any();
-    mcnk.header.position = [kani::any(), kani::any(), kani::any()];
-    let bounds = if with_bounds { Some(MfboChunk { max_plane: kani::any(), min_plane: kani::any() }) } else { None };
-    let adt = build_tile(version, dp, wp, mcnk.clone(), bounds);
-    let mut out = Img::<2>::new();
-    ok!(serialize_to_writer(&adt, &mut out), "serialize_to_writer fails on a built tile");
-    let mfbo_at = if with_bounds { Some(P_AFTER_MODF) } else { None };
-    let mcnk_at = if with_bounds { P_AFTER_MODF + 8 + 36 } else { P_AFTER_MODF };
-    let nchunks = if with_bounds { 12 } else { 11 };
-    kani::cover!(out.len == mcnk_at + 144);
-    assert!(out.len == mcnk_at + 8 + 136, "file length differs from the sum of the chunks in the documented order");
-    assert!(out.walk(0, out.len, 16) == Some(nchunks), "chunk framing does not tile the file exactly");
-    assert!(out.is_magic(0, ChunkId::MVER) && out.le32(4) == 4 && out.le32(8) == 18, "file does not start with MVER 18");
-    offset_tables_point_at_chunks(&out, mfbo_at, None, mcnk_at);
-    // parse
-    out.pos = 0;
-    let disc = ok!(crate::chunk_discovery::discover_chunks(&mut out), "chunk discovery fails on a serialised tile");
-    assert!(disc.total_chunks == nchunks && disc.file_size == out.len as u64, "discovery sees a different number of chunks than the reference walker");
-    assert!(crate::file_type::AdtFileType::from_discovery(&disc) == crate::file_type::AdtFileType::Root, "serialised tile is not recognised as a root ADT");
-    let detected = AdtVersion::from_discovery(&disc);
-    assert!(detected == version, "version detected from the serialised tile differs from the version it was built for");
-    let (root, warnings) = ok!(crate::root_parser::parse_root_adt(&mut out, &disc, detected), "serialised tile is rejected by the parser");
-    same_content(&root, &dp, &wp, &mcnk);
-    assert!(root.version == version);
-    match (&root.flight_bounds, &bounds) {
-        (Some(a), Some(b)) => {
-            let i: usize = kani::any();
-            kani::assume(i < 9);
-            assert!(a.max_plane[i] == b.max_plane[i] && a.min_plane[i] == b.min_plane[i], "flight bounds changed in build->serialise->parse");
-        }
-        (None, None) => {}
-        _ => panic!("flight bounds appear or disappear in build->serialise->parse"),
-    }
-    assert!(root.texture_flags.is_none(), "parser invents texture flags");
-    std::mem::forget((adt, disc, root, warnings, mcnk));
-}
-
-#[kani::proof]
-#[kani::stub(std::fmt::format, vio::fmt_stub)]
-#[kani::stub(std::any::TypeId::eq, typeid_ne)]
-#[kani::stub(std::hash::RandomState::new, rs_stub)]
-#[kani::unwind(260)]
-fn c14g_file_vanilla_early() { file_roundtrip(AdtVersion::VanillaEarly, false) }
-
-#[kani::proof]
-#[kani::stub(std::fmt::format, vio::fmt_stub)]
-#[kani::stub(std::any::TypeId::eq, typeid_ne)]
-#[kani::stub(std::hash::RandomState::new, rs_stub)]
-#[kani::unwind(260)]
-fn c14g_file_tbc_flight_bounds() { file_roundtrip(AdtVersion::TBC, true) }
-
-/// the version a tile was built for is recovered from the chunks the serializer emits (discovery only, no parse)
-fn detected_version(version: AdtVersion) -> AdtVersion {
-    let adt = build_tile(version, DoodadPlacement { name_id: 0, unique_id: 1, position: [0.0; 3], rotation: [0.0; 3], scale: 1024, flags: 0 },
-        WmoPlacement { name_id: 0, unique_id: 2, position: [0.0; 3], rotation: [0.0; 3], extents_min: [0.0; 3], extents_max: [0.0; 3],
-            flags: 0, doodad_set: 0, name_set: 0, scale: 1024 }, empty_mcnk(header_zero()), None);
-    let mut out = Img::<2>::new();
-    ok!(serialize_to_writer(&adt, &mut out), "serialize_to_writer fails on a built tile");
-    out.pos = 0;
-    let disc = ok!(crate::chunk_discovery::discover_chunks(&mut out), "chunk discovery fails on a serialised tile");
-    let v = AdtVersion::from_discovery(&disc);
-    std::mem::forget((adt, disc));
-    v
-}
-
-/// witness KF-C14-version-detect
-#[kani::proof]
-#[kani::stub(std::fmt::format, vio::fmt_stub)]
-#[kani::stub(std::any::TypeId::eq, typeid_ne)]
-#[kani::stub(std::hash::RandomState::new, rs_stub)]
-#[kani::unwind(260)]
-fn c14g_version_vanilla_late_witness() {
-    assert!(detected_version(AdtVersion::VanillaLate) == AdtVersion::VanillaLate,
-        "tile built for Vanilla 1.9+ is detected as another version after serialisation (MCCV is a sub-chunk, discovery only sees root chunks)");
-}
-
-/// WotLK: MTXF is emitted and makes the version detectable; content other than the texture flags survives
-#[kani::proof]
-#[kani::stub(std::fmt::format, vio::fmt_stub)]
-#[kani::stub(std::any::TypeId::eq, typeid_ne)]
-#[kani::stub(std::hash::RandomState::new, rs_stub)]
-#[kani::unwind(260)]
-fn c14g_file_wotlk() {
-    let dp = doodad_any();
-    let wp = wmo_any();
-    let mcnk = empty_mcnk(header_zero());
-    let adt = build_tile(AdtVersion::WotLK, dp, wp, mcnk.clone(), None);
-    let mut out = Img::<2>::new();
-    ok!(serialize_to_writer(&adt, &mut out), "serialize_to_writer fails on a built tile");
-    let mcnk_at = P_AFTER_MODF + 8 + 4;
-    kani::cover!(out.len == mcnk_at + 144);
-    assert!(out.len == mcnk_at + 8 + 136, "file length differs from the sum of the chunks in the documented order");
-    assert!(out.walk(0, out.len, 16) == Some(12), "chunk framing does not tile the file exactly");
-    assert!(out.le32(P_AFTER_MODF + 4) == 4 && out.le32(P_AFTER_MODF + 8) == 0, "generated MTXF is not one zero flag per texture");
-    offset_tables_point_at_chunks(&out, None, Some(P_AFTER_MODF), mcnk_at);
-    out.pos = 0;
-    let disc = ok!(crate::chunk_discovery::discover_chunks(&mut out), "chunk discovery fails on a serialised tile");
-    let detected = AdtVersion::from_discovery(&disc);
-    assert!(detected == AdtVersion::WotLK, "version detected from the serialised tile differs from the version it was built for");
-    let (root, warnings) = ok!(crate::root_parser::parse_root_adt(&mut out, &disc, detected), "serialised tile is rejected by the parser");
-    same_content(&root, &dp, &wp, &mcnk);
-    // known finding mtxf-unbounded: root.texture_flags is not compared (c14g_file_wotlk_mtxf_witness)
-    assert!(root.texture_flags.is_some(), "MTXF emitted but not parsed");
-    std::mem::forget((adt, disc, root, warnings, mcnk));
-}
-
-/// witness KF-C14-mtxf-unbounded: MTXF is read to the end of the file instead of to the end of the chunk
-#[kani::proof]
-#[kani::stub(std::fmt::format, vio::fmt_stub)]
-#[kani::stub(std::any::TypeId::eq, typeid_ne)]
-#[kani::stub(std::hash::RandomState::new, rs_stub)]
-#[kani::unwind(260)]
-fn c14g_file_wotlk_mtxf_witness() {
-    let adt = build_tile(AdtVersion::WotLK, DoodadPlacement { name_id: 0, unique_id: 1, position: [0.0; 3], rotation: [0.0; 3], scale: 1024, flags: 0 },
-        WmoPlacement { name_id: 0, unique_id: 2, position: [0.0; 3], rotation: [0.0; 3], extents_min: [0.0; 3], extents_max: [0.0; 3],
-            flags: 0, doodad_set: 0, name_set: 0, scale: 1024 }, empty_mcnk(header_zero()), None);
-    let mut out = Img::<2>::new();
-    ok!(serialize_to_writer(&adt, &mut out), "serialize_to_writer fails on a built tile");
-    out.pos = 0;
-    let disc = ok!(crate::chunk_discovery::discover_chunks(&mut out), "chunk discovery fails on a serialised tile");
-    let (root, warnings) = ok!(crate::root_parser::parse_root_adt(&mut out, &disc, AdtVersion::WotLK), "serialised tile is rejected by the parser");
-    let n = match &root.texture_flags { Some(f) => f.flags.len(), None => 0 };
-    assert!(n == 1, "texture flags (MTXF) parsed from a serialised tile have more entries than were written (read runs past the chunk into MCNK)");
-    std::mem::forget((adt, disc, root, warnings));
-}
-
-/// witness KF-C14-mtxf-unbounded on the smallest file the library's own chunk writers can produce for it:
-/// MVER, MHDR, MTXF (one flag), one MCNK (a split-root style tile: parse_root_adt does not ask for MCIN/MTEX then)
-#[kani::proof]
-#[kani::stub(std::fmt::format, vio::fmt_stub)]
-#[kani::stub(std::any::TypeId::eq, typeid_ne)]
-#[kani::stub(std::hash::RandomState::new, rs_stub)]
-#[kani::stub(binrw::helpers::until_eof, until_eof_model)]
 #[kani::unwind(40)]
-fn c14g_mtxf_read_past_chunk_witness() {
-    let mut out = Img::<1>::new();
-    ok!(write_chunk(&mut out, ChunkId::MVER, &MverChunk { version: 18 }), "write_chunk fails");
-    ok!(write_chunk(&mut out, ChunkId::MHDR, &MhdrChunk::default()), "write_chunk fails");
+fn c14g_mtxf_reader_ignores_chunk_size_witness() {
+    let mut out = Img::<3>::new();
     let mut flags = Vec::new();
     flags.push(7u32);
     let mtxf = MtxfChunk { flags };
     ok!(write_chunk(&mut out, ChunkId::MTXF, &mtxf), "write_chunk fails");
     let c = empty_mcnk(header_zero());
     ok!(write_mcnk_chunk(&mut out, &c), "write_mcnk_chunk fails");
-    assert!(out.len == 12 + 72 + 12 + 144 && out.walk(0, out.len, 8) == Some(4));
-    out.pos = 0;
-    let disc = ok!(crate::chunk_discovery::discover_chunks(&mut out), "chunk discovery fails");
-    let (root, warnings) = ok!(crate::root_parser::parse_root_adt(&mut out, &disc, AdtVersion::WotLK), "tile is rejected by the parser");
-    let n = match &root.texture_flags { Some(f) => f.flags.len(), None => 0 };
-    assert!(n == 1, "texture flags (MTXF) parsed back have more entries than were written (the read runs past the chunk into the following MCNK)");
-    std::mem::forget((mtxf, c, disc, root, warnings));
-}
-
-// ================================================================== C14.h version detection on the root chunks of a built tile
-/// witness KF-C14-version-detect: the root-level chunks serialize_to_writer documents for a tile without optional
-/// chunks (MVER MHDR MCIN MTEX MMDX MMID MWMO MWID MDDF MODF MCNK - MCCV only ever appears *inside* MCNK) are all the
-/// detector gets to see; the keys it asks for are MCNK, MCIN, MTXP, MAMP, MH2O, MTXF, MFBO, MCCV
-#[kani::proof]
-#[kani::stub(std::fmt::format, vio::fmt_stub)]
-#[kani::stub(std::any::TypeId::eq, typeid_ne)]
-#[kani::stub(std::hash::RandomState::new, rs_stub)]
-#[kani::unwind(12)]
-fn c14h_version_vanilla_late_witness() {
-    use crate::chunk_discovery::ChunkLocation;
-    let mut chunks: std::collections::HashMap<ChunkId, Vec<ChunkLocation>> = std::collections::HashMap::new();
-    let mut a = Vec::new();
-    a.push(ChunkLocation { offset: 84, size: 4096 });
-    chunks.insert(ChunkId::MCIN, a);
-    let mut b = Vec::new();
-    b.push(ChunkLocation { offset: 4369, size: 724 });
-    chunks.insert(ChunkId::MCNK, b);
-    let v = AdtVersion::detect_from_chunks(&chunks);
-    std::mem::forget(chunks);
-    assert!(v == AdtVersion::VanillaLate, "tile built for Vanilla 1.9+ is detected as another version (MCCV is an MCNK sub-chunk, the detector only sees root chunks)");
+    assert!(out.le32(4) == 4 && out.is_magic(12, ChunkId::MCNK) && out.len == 12 + 144);
+    ok!(out.seek(SeekFrom::Start(0 + 8)), "seek fails");
+    let m = ok!(MtxfChunk::read_le(&mut out), "MTXF rejected");
+    assert!(m.flags.len() == 1, "texture flags (MTXF) read back have more entries than the chunk declares (the reader runs past the chunk into the following MCNK)");
+    std::mem::forget((mtxf, c, m));
 }
 
 #[kani::proof]
